@@ -41,6 +41,7 @@ type Witness struct {
 	Expect  []TraceEvent      `json:"expect"`
 	Outcome string            `json:"outcome"`
 	Notes   map[string]string `json:"notes,omitempty"`
+	Preempts []Preempt        `json:"preempts,omitempty"`
 }
 
 type WVal struct {
@@ -92,6 +93,7 @@ func (ex *Exec) buildWitness(model map[string]ModelVal, outcome string) *Witness
 	for _, c := range ex.choices {
 		w.Choices[c.Name] = c.V
 	}
+	w.Preempts = append([]Preempt(nil), ex.preempts...)
 	for _, j := range ex.jsonInputs {
 		var b bytes.Buffer
 		ex.renderJSON(j.N, model, &b)
